@@ -30,7 +30,10 @@ pub trait Latch<P>: Deref<Target = P> {}
 #[cfg(not(feature = "verif"))]
 impl<P> ReadLatch<P> {
     pub(crate) fn new(lock: &Arc<RwLock<P>>) -> Self {
-        Self(lock.read_arc())
+        // A scan takes a second read latch on the leaf it is already reading. A plain `read`
+        // queues behind a waiting writer, which waits for the first latch: deadlock. The
+        // recursive form never queues behind writers.
+        Self(lock.read_arc_recursive())
     }
 }
 
@@ -38,7 +41,7 @@ impl<P> ReadLatch<P> {
 impl<P: Identifiable<IdType = PageId>> ReadLatch<P> {
     pub(crate) fn new(lock: &Arc<RwLock<P>>) -> Self {
         crate::verif::yield_point();
-        let guard = lock.read_arc();
+        let guard = lock.read_arc_recursive();
         let held = crate::verif::locktap::Held::page(u64::from(guard.id()), false);
         Self(guard, held)
     }
